@@ -187,9 +187,12 @@ def tableLines (a : Analysis) : List Txt :=
 
 def unlines (ls : List Txt) : Txt := ls.flatMap (fun l => l ++ [10])
 
+/-- what follows the table lines: nothing (the totals line is a table line) or the missing-data warning -/
+def tailTxt (a : Analysis) : Txt := if showsTotals a then [] else missingError (numMissing a.rows)
+
 /-- `combined_view(kernel, cp_kernel, dep_dict, ignore_unknown)` -/
 def combinedView (a : Analysis) : Txt :=
-  combinedTitle ++ unlines (tableLines a) ++ (if showsTotals a then [] else missingError (numMissing a.rows))
+  combinedTitle ++ unlines (tableLines a) ++ tailTxt a
 
 /-! ### LCD list, warnings, header -/
 
